@@ -341,7 +341,7 @@ void NTT_Goldilocks::extendPol(Goldilocks::Element *output, Goldilocks::Element 
         tmp = buffer;
     }
     // TODO: Pre-compute r
-    if (r == NULL)
+    if (r == NULL || rSize != N)
     {
         computeR(N);
     }
